@@ -18,7 +18,7 @@ INFO = {
     "outside": ["the C-level JSON codec (requests are delivered as Python objects)", "request sequences longer than the bound (the per-request check starts from an arbitrary configuration, which is the inductive step)"],
     "stubs": ["json / sys shims for kconfserver.core", "memfs behind kconfserver / kconfgen / core file access"],
 }
-BUDGET = {"quick": 240, "thorough": 1100}
+BUDGET = {"quick": 240, "thorough": 800}
 
 VERS = [0, 1, 2, 3, 4, "3", None, 2.5]
 
